@@ -32,7 +32,7 @@ ASSUMPTIONS = ['a fill value that cannot be converted to a series dtype (e.g. "z
 TECHNIQUE = 'Hypothesis-generated (old span, new span, fills) cases + a fixed enumeration against a position-by-position reference; shared-object detection by id walk confirmed by mutation'
 LEVEL_TEXT = ('Each generated reindex call is compared cell by cell with the statement (independent pos(), stated fill precedence), '
               'and the result is checked to be a fresh object sharing nothing with the original.')
-LEVEL_NOTE = 'Trusted: spans.pos(). Not covered: spans longer than 5; pandas fill methods of the mixin (only its defaults are in the statement).'
+LEVEL_NOTE = 'Trusted: spans.pos(). Not covered: spans longer than 5; pandas fill methods of the mixin (only its defaults are in the statement; fill_value, per-variable fills and strict do go through the mixin).'
 
 DEFAULTS = {'f': float('nan'), 'i': 0, 'u': 0, 'b': False, 'U': ''}
 
@@ -315,8 +315,8 @@ def strategy():
         new = draw(st.sampled_from(new_spans(desc)))
         kind = draw(st.sampled_from(['container', 'model', 'model', 'pandas-mixin']))
         case = {'kind': kind, 'old': desc, 'new': new, 'solved': draw(st.integers(0, 2)), 'obj_strict': draw(st.booleans())}
-        if kind == 'pandas-mixin':
-            return case
+        if kind == 'pandas-mixin' and draw(st.booleans()):
+            return case            # plain default call; otherwise the base-class arguments go through the mixin as well
         fv = draw(st.sampled_from(['absent', 7, 2.5, True, 0, 'zz', -1]))
         if fv != 'absent':
             case['fill_value'] = fv
